@@ -456,6 +456,19 @@ func linParts(tier string) []string {
 	return out
 }
 
+// RunC04Concurrent runs the part of the concurrent-sessions tier in which the primary role is contested by three
+// sessions (and two pairs with a hand-over in mid-request) under the C04 command: only the elected primary's
+// operations may take effect also when elections and operations of different sessions overlap.
+func RunC04Concurrent(rep *report.Report, tier string) {
+	var parts []string
+	for _, k := range linParts(tier) {
+		if strings.Count(k, "/") == 3 && strings.Contains(k, "/c") || k == "lin/0/0" || k == "lin/3/2" {
+			parts = append(parts, k)
+		}
+	}
+	rep.Shards(parts, 16, nil)
+}
+
 // RunC06Concurrent runs the concurrent-sessions tier (one shard process per pair of programs).
 func RunC06Concurrent(rep *report.Report, tier string) {
 	rep.Shards(linParts(tier), 16, nil)
